@@ -70,5 +70,5 @@ def run(args):
     rep.units = rr.tags
     rep.trusted = ["clang 14 AST / template instantiation / integer constant folding", "Eigen block API semantics for the ~25 accessor names in engine/rules_out.py", "tl::optional"]
     rep.assumptions = ["NOT decided: that the transcendental closed forms (Jacobians of exp and log: rjac, rjacinv and the chain rules built from them) are the true derivative beyond order 4 of their Taylor expansion at the origin; rounding behaviour"]
-    rep.checker_cmd = "manif-sa plugin (mode=funcs) + engine/rules_out.py abstract interpreter"
+    rep.checker_cmd = "manif-sa plugin (mode=funcs) + engine/rules_out.py (dataflow) + rules_poly.py (R-POLY.jac) + rules_jet.py (R-JET) + jetnum.py / rules_series.py (R-SERIES) + rules_deriv.py (R-SERIES.deriv)"
     return rep.finish()
